@@ -169,7 +169,7 @@ def run(ctx):
     strings += [tuple(rng.randrange(64) for _ in range(8)) for _ in range(500)]
     strings = list(dict.fromkeys(strings))
     nvar = 8 if ctx.thorough else 3
-    ctx.pmap(w_any, [("q", 3)] + [("s", (c, nvar)) for c in chunks(strings, 500)] +
+    ctx.pmap(w_any, [("q", 3), ("rel", None)] + [("s", (c, nvar)) for c in chunks(strings, 500)] +
              [("b", c) for c in chunks([tuple(x) for x in bases] + strings[:40:3], 2)])
     ctx.cov["strings"] = len(strings)
     ctx.samples += [{"codes": list(bases[3]), "adsb": list(frames_for(bases[3], 7))[0][1], "bds20": list(frames_for(bases[3], 7))[1][1]}]
@@ -192,9 +192,39 @@ def w_seqx(depth):
     return acc.res()
 
 
+def w_rel(_):
+    """relations between the identification and other fields of the same frame: the identification spells the frame's
+    own address (units without a flight id do send that), its parity, or its type code / category digits."""
+    acc = Acc()
+    k = 0
+    for aa in (0x4840D6, 0xABCDEF, 0x123456, 0x000000, 0x0A1B2C, 0x999999):
+        for text in ("%06X  " % aa, "  %06X" % aa, "%06X%02X" % (aa, aa >> 16), ("%06X" % aa)[::-1] + "  "):
+            codes = tuple(codes_of(text.replace(" ", "_")))
+            for tc in (1, 4):
+                for df in (17, 18):
+                    k += 1
+                    me = F.me(tc, [(6, 3, k % 8)]) | pack(codes)
+                    msg = vary_case(F.es(me, aa, 5, df), k)
+                    acc.n += 1
+                    s = judge("callsign", codes, msg, k % 8)
+                    if s:
+                        acc.bad(s + ":identification_spells_the_address", {"kind": "callsign", "codes": list(codes), "msg": msg, "extra": k % 8})
+            for df in (20, 21):
+                k += 1
+                msg = vary_case(F.long_ap(df, 0x0001838, (0x20 << 48) | pack(codes), aa), k)
+                acc.n += 1
+                s = judge("cs20", codes, msg, None)
+                if s:
+                    acc.bad(s + ":identification_spells_the_address", {"kind": "cs20", "codes": list(codes), "msg": msg, "extra": None})
+            acc.out.add(("rel", aa, text))
+    return acc.res()
+
+
 def w_any(t):
     if t[0] == "q":
         return w_seqx(t[1])
+    if t[0] == "rel":
+        return w_rel(t[1])
     return {"s": w_strings, "b": w_bg1}[t[0]](t[1])
 
 
@@ -204,4 +234,4 @@ def replay(case):
         s = replay_sequence(seq_thunks(), case["sequence"])
         return [(s, case)] if s else []
     s = judge(case["kind"], case["codes"], case["msg"], case.get("extra"))
-    return [(s, case), (s + ":bg1", case)] if s else []
+    return [(s, case), (s + ":bg1", case), (s + ":identification_spells_the_address", case)] if s else []
